@@ -338,8 +338,25 @@ def conversion(ck: Check, info):
         stats["classes"] += 1
         for j in range(n_per):
             msg = protogen.random_message(pb, rng, p_set=[0.0, 1.0, 0.7, 0.5][j % 4])
-            # unknown enum numbers
+            # unknown enum numbers - in nested messages too (every element of a repeated message field is kept; only ITS enum
+            # field becomes None)
             if j % 3 == 2:
+                def inject_nested(m, depth=0):
+                    for fd in m.DESCRIPTOR.fields:
+                        if fd.type != FD.TYPE_MESSAGE or depth > 2:
+                            continue
+                        subs = list(getattr(m, fd.name)) if fd.is_repeated else ([getattr(m, fd.name)] if m.HasField(fd.name) else [])
+                        if fd.is_repeated and len(subs) < 3 and any(f2.type == FD.TYPE_ENUM for f2 in fd.message_type.fields):
+                            for _x in range(3 - len(subs)):
+                                getattr(m, fd.name).add().CopyFrom(protogen.random_message(getattr(api_pb2, fd.message_type.name), rng, p_set=0.7))
+                            subs = list(getattr(m, fd.name))
+                        for k_, sub in enumerate(subs):
+                            for f2 in sub.DESCRIPTOR.fields:
+                                if f2.type == FD.TYPE_ENUM and not f2.is_repeated and k_ % 2 == (j // 3) % 2:
+                                    nums2 = sorted(v.number for v in f2.enum_type.values)
+                                    setattr(sub, f2.name, rng.choice([x for x in range(0, nums2[-1] + 2) if x not in nums2] + [2**31 - 1]))
+                            inject_nested(sub, depth + 1)
+                inject_nested(msg)
                 for fd in pb.DESCRIPTOR.fields:
                     if fd.type == FD.TYPE_ENUM:
                         nums = sorted(v.number for v in fd.enum_type.values)
@@ -379,6 +396,11 @@ def conversion(ck: Check, info):
                     if mv is not want:
                         ck.violation(f"enum-field:{cname}.{f.name}:{wv}", f"{cname}.from_pb: wire enum number {wv} became {mv!r}, "
                                      f"expected {want!r}", {"class": cname, "field": f.name, "value": wv})
+                if kind.startswith("nestedlist:"):
+                    if len(mv) != len(wv):
+                        ck.violation(f"nested-list-length:{cname}.{f.name}", f"{cname}.from_pb: the wire message lists {len(wv)} {kind[11:]} "
+                                     f"entries, the model {len(mv)} (every element is kept; an unknown enum number inside one becomes None)",
+                                     {"class": cname, "field": f.name, "payload": msg.SerializeToString().hex()})
                 if kind.startswith("enumlist:"):
                     E = getattr(M, kind[9:])
                     members = {int(x) for x in E}
